@@ -11,7 +11,7 @@ import (
 func init() {
 	register(&propInfo{
 		ID:          "C12",
-		Explanation: "Value-origin and path analysis of method naming and dispatch: (R12.1) the key under which a handler method is registered is the result of the handler's own configured name formatter applied to (namespace argument, reflected method name); the name a client function sends is its configured formatter's result or, when present, the rpc_method tag; both formatter fields are filled from the respective configuration; the wire request carries exactly that name; (R12.2) in every function resolving a method, the alias table is consulted only after the direct lookup failed, its result is looked up in the method table, and the handler that runs is the one found; (R12.3) a failed parameter decode is tested at once and its failure branch reaches neither another decode nor the handler without an intervening error test; the arity test guards every positional-params path to the handler. (R12.5) the method descriptor is read after name and alias resolution. (R12.6) the only rejections before the handler are unknown name and alias, unsupported channel mode and bad params; (R12.7) an alias is recorded unconditionally. (R12.8) every read of the method table in the dispatcher is a comma-ok lookup.",
+		Explanation: "Value-origin and path analysis of method naming and dispatch: (R12.1) the key under which a handler method is registered is the result of the handler's own configured name formatter applied to (namespace argument, reflected method name); the name a client function sends is its configured formatter's result or, when present, the rpc_method tag; both formatter fields are filled from the respective configuration; the wire request carries exactly that name; (R12.2) in every function resolving a method, the alias table is consulted only after the direct lookup failed, its result is looked up in the method table, and the handler that runs is the one found; (R12.3) a failed parameter decode is tested at once and its failure branch reaches neither another decode nor the handler without an intervening error test; the arity test guards every positional-params path to the handler. (R12.5) the method descriptor is read after name and alias resolution. (R12.6) the only rejections before the handler are unknown name and alias, unsupported channel mode and bad params; (R12.7) an alias is recorded unconditionally. (R12.8) every read of the method table in the dispatcher is a comma-ok lookup. (R12.9) no prefix or substring test of the method name in the frame switch.",
 		NotDecided:  "What formatter functions return (string values), namespace non-leakage between namespaces (a consequence of string equality on formatted names), type mismatches detected by encoding/json itself.",
 		Assumptions: []string{"the method table is the map[string]<struct> field of the dispatcher's receiver; the alias table its map[string]string field"},
 		Run:         runC12,
@@ -33,6 +33,8 @@ func isFormatterType(t types.Type) bool {
 func runC12(c *Ctx) {
 	p, r := c.P, c.R
 	c.rule("R12.1", "registration key and client-side name come from the configured formatter (or the rpc_method tag); formatter fields are filled from configuration; the wire request carries that name")
+	c.rule("R12.9", "a frame is taken for one of the protocol's own notifications only by equality with its name: no prefix / substring test of the method name decides the dispatch (a method registered or aliased under such a prefix must still reach the handler table)")
+	c.noPrefixDispatch("R12.9")
 	c.rule("R12.2", "direct lookup first; alias only after it failed; alias target looked up in the method table")
 	c.rule("R12.3", "a failed parameter decode is tested at once and cannot reach another decode or the handler; the arity test guards every positional-params path")
 	if !c.need("R12.1", "FN_disp", r.FnDisp != nil) {
@@ -655,5 +657,43 @@ func (c *Ctx) aliasStoredUnconditionally(rule string) {
 	}
 	if n == 0 {
 		c.und(rule, "alias registration", "-", "no function recording (alias, original) into a string table found")
+	}
+}
+
+// noPrefixDispatch: R12.9. In the frame switch (and what it calls synchronously up to the dispatcher)
+// no strings.HasPrefix / HasSuffix / Contains / EqualFold / Cut is applied to the frame's method name.
+func (c *Ctx) noPrefixDispatch(rule string) {
+	p, r := c.P, c.R
+	w := c.ws()
+	if w.FrameSwitch == nil || r.TFrame == nil {
+		c.und(rule, "frame switch", "-", "not resolved")
+		return
+	}
+	mf := respFieldByTag(r.TFrame, "method")
+	if mf == nil {
+		c.und(rule, "frame method member", "-", "not found")
+		return
+	}
+	construct := fmt.Sprintf("%s: how a frame's method selects its handling", fname(w.FrameSwitch))
+	var bad ssa.Instruction
+	allInstrs(w.FrameSwitch, func(in ssa.Instruction) {
+		ci, ok := in.(*ssa.Call)
+		if !ok {
+			return
+		}
+		switch calleeName(ci) {
+		case "strings.HasPrefix", "strings.HasSuffix", "strings.Contains", "strings.EqualFold", "strings.Cut", "strings.CutPrefix", "strings.Index", "strings.ToLower", "strings.ToUpper", "strings.TrimPrefix":
+			for _, a := range ci.Common().Args {
+				if c.dependsOn(a, func(v ssa.Value) bool { return loadedField(v) == mf }, 0, map[ssa.Value]bool{}) {
+					bad = in
+				}
+			}
+		}
+	})
+	_ = p
+	if bad != nil {
+		c.bad(rule, construct, c.ipos(bad), "the frame switch classifies the method name by a prefix / substring test: a method whose registered name, alias or tag happens to match (a namespace called like the protocol prefix) never reaches the handler table over WebSocket — no handler runs and no method-not-found reply is sent")
+	} else {
+		c.ok(rule, construct, p.pos(w.FrameSwitch.Pos()), "equality with the built-in names only")
 	}
 }
